@@ -402,7 +402,7 @@ func (p *Provider) SetDrifted(name string, reason cloudprovider.DriftReason) {
 	p.DriftedClaims[name] = reason
 }
 func (p *Provider) RepairPolicies() []cloudprovider.RepairPolicy { return p.Repair }
-func (p *Provider) Name() string                                  { return "sim" }
+func (p *Provider) Name() string                                 { return "sim" }
 func (p *Provider) GetSupportedNodeClasses() []status.Object {
 	return []status.Object{&testv1alpha1.TestNodeClass{}}
 }
